@@ -119,7 +119,8 @@ func Start(id, level string) *Run {
 	}
 	r.Deadline = r.start.Add(budget)
 	r.sampleEvery = 1
-	debug.SetGCPercent(800) // the checks allocate many short-lived objects; trade memory for time
+	debug.SetGCPercent(800)        // the checks allocate many short-lived objects; trade memory for time
+	debug.SetMemoryLimit(24 << 30) // ... up to a point: the collector works harder near 24 GiB
 	return r
 }
 
